@@ -217,6 +217,40 @@ static void run_concurrent_unref(int rounds) {
 	}
 }
 
+/* several threads, each owning a reference of its own, take and drop further references on one handle at the same time: the count must
+ * neither lose an increment (handle freed while references exist, freed twice) nor a decrement (never freed) */
+static PUThread *rs_target; static pthread_barrier_t rsbar; static long long st_ref_storm_pairs;
+static void *ref_stormer(void *a) { long n = (long)(intptr_t)a, i; pthread_barrier_wait(&rsbar); for (i = 0; i < n; i++) { p_uthread_ref(rs_target); if ((i & 7) == 0) sched_yield(); p_uthread_unref(rs_target); } return NULL; }
+static void run_ref_storm(int rounds, long pairs) {
+	int k, i;
+	for (k = 0; k < rounds && vh_nviol < vh_max_viol; k++) {
+		pthread_t th[4]; HEnt *e = NULL; PUThread *t;
+		scen = "concurrent-ref-unref";
+#ifndef HB_MODE
+		e = h_register(NULL, 1);
+#endif
+		t = p_uthread_create(quick_body, e, TRUE, NULL);
+		if (!t) { if (e) e->live = 0; continue; }
+		if (e) { pthread_mutex_lock(&hmu); e->addr = t; pthread_mutex_unlock(&hmu); }
+		p_uthread_join(t);
+		/* every stormer gets a reference of its own first (taken here, sequentially), so each ref/unref pair inside the storm is legal */
+		for (i = 0; i < 4; i++) { if (e) h_ref(e, t); else p_uthread_ref(t); }
+		rs_target = t; pthread_barrier_init(&rsbar, NULL, 4);
+		for (i = 0; i < 4; i++) __real_pthread_create(&th[i], NULL, ref_stormer, (void *)(intptr_t)pairs);
+		for (i = 0; i < 4; i++) pthread_join(th[i], NULL);
+		pthread_barrier_destroy(&rsbar); st_ref_storm_pairs += 4 * pairs;
+#ifndef HB_MODE
+		if (bad_free_refs) { viol("freed-while-referenced", "the handle was freed while five references were outstanding (concurrent ref/unref pairs lost an increment)"); bad_free_refs = 0; if (e) e->live = 0; continue; }
+#endif
+		for (i = 0; i < 4; i++) { if (e) h_unref(e, t); else p_uthread_unref(t); }
+		if (e) h_unref(e, t); else p_uthread_unref(t);           /* the creator's: the last one */
+		if (e) { if (!wait_until(NULL, pred_freed, e, 30000)) viol("handle-never-freed", "handle not released after the last reference was dropped (concurrent ref/unref pairs lost a decrement)"); e->live = 0; }
+#ifndef HB_MODE
+		if (va_bad_free) { viol("double-free", "handle block released twice after concurrent ref/unref pairs (%lld frees of dead blocks)", va_bad_free); va_bad_free = 0; }
+#endif
+	}
+}
+
 /* ---------------- first-use race on a fresh TLS key ---------------- */
 static PUThreadKey *race_key; static pthread_barrier_t rbar; static long long race_wrong;
 static ppointer race_fn(ppointer a) {
@@ -360,6 +394,7 @@ int main(int argc, char **argv) {
 	inj_on = !vh_flag(argc, argv, "--no-delays");
 	run_threads(&r, n, alive);
 	run_concurrent_unref((int)vh_argi(argc, argv, "--unref-races", 300));
+	run_ref_storm((int)vh_argi(argc, argv, "--ref-storms", 20), 3000);
 	run_first_use(&r, races, alive < 4 ? 4 : alive);
 	run_foreign(foreign);
 	run_tls_sequences(&r, (int)vh_argi(argc, argv, "--tls-histories", 200), alive < 8 ? alive : 8);
@@ -367,7 +402,7 @@ int main(int argc, char **argv) {
 	p_uthread_local_free(key_a); p_uthread_local_free(key_b);
 	p_libsys_shutdown();
 	printf("{\"ev\":\"stats\",\"threads\":%lld,\"joined\":%lld,\"detached\":%lld,\"explicit_refs\":%lld,\"handles_freed_by_harness_unref\":%lld,\"handles_freed_at_thread_exit\":%lld,\"tls_threads\":%lld,"
-	       "\"tls_history_threads\":%lld,\"tls_history_ops\":%lld,\"tls_history_values\":%lld,\"tls_replace_on_empty_slot\":%lld,\"tls_replace_with_null\":%lld,\"first_use_races\":%lld,\"concurrent_unref_races\":%lld,\"foreign_threads\":%lld,\"delayed_thread_starts\":%lld,\"delayed_creators\":%lld,\"viol\":%d,\"wall\":%.2f}\n",
-	       st_threads, st_joined, st_detached, st_refs, st_freed_by_unref, st_freed_at_exit, st_tls_threads, st_seq_threads, st_seq_ops, st_seq_values, st_seq_replace_on_empty, st_seq_replace_with_null, st_first_use_races, st_concurrent_unrefs, st_foreign, inj_start_delays, inj_creator_delays, vh_nviol, vh_now() - t0);
+	       "\"tls_history_threads\":%lld,\"tls_history_ops\":%lld,\"tls_history_values\":%lld,\"tls_replace_on_empty_slot\":%lld,\"tls_replace_with_null\":%lld,\"first_use_races\":%lld,\"concurrent_ref_unref_pairs\":%lld,\"concurrent_unref_races\":%lld,\"foreign_threads\":%lld,\"delayed_thread_starts\":%lld,\"delayed_creators\":%lld,\"viol\":%d,\"wall\":%.2f}\n",
+	       st_threads, st_joined, st_detached, st_refs, st_freed_by_unref, st_freed_at_exit, st_tls_threads, st_seq_threads, st_seq_ops, st_seq_values, st_seq_replace_on_empty, st_seq_replace_with_null, st_first_use_races, st_ref_storm_pairs, st_concurrent_unrefs, st_foreign, inj_start_delays, inj_creator_delays, vh_nviol, vh_now() - t0);
 	return 0;
 }
